@@ -201,14 +201,3 @@ theorem borrow_limit_is_per_connection :
 
 end Iox2.PubSub.C08
 
-#print axioms Iox2.PubSub.C08.loan_never_out_of_memory
-#print axioms Iox2.PubSub.C08.probe_never_out_of_memory
-#print axioms Iox2.PubSub.C08.loan_ok_iff
-#print axioms Iox2.PubSub.C08.completion_queue_never_full
-#print axioms Iox2.PubSub.C08.release_succeeds
-#print axioms Iox2.PubSub.C08.cpub_ok_iff
-#print axioms Iox2.PubSub.C08.csub_ok_iff
-#print axioms Iox2.PubSub.C08.registry_within_limits
-#print axioms Iox2.PubSub.C08.no_panic_disciplined
-#print axioms Iox2.PubSub.C08.panic_reachable_undisciplined
-#print axioms Iox2.PubSub.C08.borrow_limit_is_per_connection
